@@ -202,6 +202,11 @@ func buildScenario(ic icase, bound int) *explore.Scenario {
 					e.Ch.Close(errClose)
 				}))
 			}
+			if ic.CloseAt < 0 {
+				// the environment keeps watching a channel that stays open: virtual time reaches 4.5T even
+				// if the handler under test lets its timer die (silence must keep producing events)
+				ths = append(ths, vsched.Go("observer", func() { vsched.Sleep(9 * T / 2) }))
+			}
 			for _, t := range ths {
 				vsched.Join(t)
 			}
@@ -309,11 +314,12 @@ func buildScenario(ic icase, bound int) *explore.Scenario {
 
 func cases(thorough bool) []icase {
 	gaps := []int64{0, T / 2, T, 3 * T / 2}
+	gaps2 := []int64{0, T / 16, T / 2, T, 3 * T / 2} // (T/16: a burst - the next message follows almost immediately)
 	var seqs [][]int64
 	seqs = append(seqs, nil)
 	for _, a := range gaps {
 		seqs = append(seqs, []int64{a})
-		for _, b := range gaps {
+		for _, b := range gaps2 {
 			seqs = append(seqs, []int64{a, b})
 			if thorough {
 				for _, c := range gaps {
@@ -344,7 +350,7 @@ func cases(thorough bool) []icase {
 func main() {
 	explore.Main(explore.Spec{
 		Property: "C20",
-		Rule:     "read-idle and write-idle handlers (idle time T = 1s) on virtual time: a peer goroutine issues 0-2 (thorough 3) messages separated by gaps from {0, T/2, T, 3T/2}; Close at {never, T/2, T, 3T/2, 5T/2} or from inside a downstream HandleActive; event handlers that panic, answer with a heartbeat write, or close the channel; timer callbacks are controlled goroutines; all interleavings up to 2 (thorough 3) deviations (preemptions + early clock ticks), horizon 5T. Oracle: an idle event delivered by a callback that started at step s and time t needs t - t_m >= T for every message whose passage through the idle handler had completed before s, and t - t_active >= T; on tick-free executions silence of k*T produces >= k events; after inactive has passed the handler at most the one callback already in flight delivers an event, no callback starts afterwards, and no timer stays armed; one exception per panicking event and no goroutine dies. distinct = distinct timelines",
+		Rule:     "read-idle and write-idle handlers (idle time T = 1s) on virtual time: a peer goroutine issues 0-2 (thorough 3) messages separated by gaps from {0, T/16 (burst), T/2, T, 3T/2}; an observer keeps an open channel under watch until 4.5T; Close at {never, T/2, T, 3T/2, 5T/2} or from inside a downstream HandleActive; event handlers that panic, answer with a heartbeat write, or close the channel; timer callbacks are controlled goroutines; all interleavings up to 2 (thorough 3) deviations (preemptions + early clock ticks), horizon 5T. Oracle: an idle event delivered by a callback that started at step s and time t needs t - t_m >= T for every message whose passage through the idle handler had completed before s, and t - t_active >= T; on tick-free executions silence of k*T produces >= k events; after inactive has passed the handler at most the one callback already in flight delivers an event, no callback starts afterwards, and no timer stays armed; one exception per panicking event and no goroutine dies. distinct = distinct timelines",
 		Assume:   []string{"'passed the handler' is read as 'the handler's processing of the message completed' (messages still in flight when the callback started are disregarded - the weakest reading)", "virtual time; a callback may be delayed arbitrarily by scheduling"},
 		Build: func(tier string) []*explore.Scenario {
 			th := tier == "thorough"
